@@ -24,6 +24,11 @@ EVIDENCE_DIR = ROOT / "evidence"
 REPLAY_DIR = ROOT / "replays"
 KNOWN = ROOT / "known_findings.json"
 REPO = Path(os.environ.get("VERIF_REPO", "/repo"))
+if "VERIF_REPO" in os.environ and Path(os.environ["VERIF_REPO"]).resolve() != Path("/repo"):
+    # a run against a patched scratch copy (seed evaluation) must not overwrite the evidence of /repo itself
+    _alt = Path(os.environ.get("VERIF_ALT_OUT", "/tmp/verif_alt_out")) / Path(os.environ["VERIF_REPO"]).name
+    EVIDENCE_DIR = _alt / "evidence"
+    REPLAY_DIR = _alt / "replays"
 
 
 class Ctx:
@@ -90,7 +95,7 @@ def load_known(pid: str) -> tuple[list[dict], list[dict]]:
 
 
 def write_evidence(ctx: Ctx, level: str, n_viol: int, n_known: int) -> None:
-    EVIDENCE_DIR.mkdir(exist_ok=True)
+    EVIDENCE_DIR.mkdir(parents=True, exist_ok=True)
     cov = {
         "states": ctx.states,
         "transitions": ctx.transitions,
@@ -137,7 +142,7 @@ def finish(ctx: Ctx, level: str) -> int:
                   f"{matched[f['signature']]} occurrence(s) this run)")
     rc = 0
     if unknown:
-        REPLAY_DIR.mkdir(exist_ok=True)
+        REPLAY_DIR.mkdir(parents=True, exist_ok=True)
         for i, (sig, v) in enumerate(sorted(unknown.items())):
             if i >= 10:
                 print(f"... {len(unknown) - 10} further distinct violation signatures suppressed")
